@@ -264,6 +264,12 @@ def run_init(mutate=None, prefixes=("C",), seeded=False, again=False, narrow=Non
             try:
                 s2 = Solver(dev, o2, applied_vector_potential=A_func, terminal_currents={"src": I_s, "drn": I_d}, disorder_epsilon=eps0)
                 want_fix = o2.terminal_psi is not None
+                # every solver owns its operators: they are mutated in place by every refresh (time-dependent A, screening), so two live solvers on
+                # one mesh must never hold the same MeshOperators object
+                o3 = _copy.copy(o)
+                s3 = Solver(dev, o3, applied_vector_potential=A_func, terminal_currents={"src": I_s, "drn": I_d}, disorder_epsilon=eps0)
+                sym.check_terms("C10.init.every_solver_builds_its_own_operators", s3.operators is not s.operators and s2.operators is not s.operators,
+                                note="a second solver with the SAME options, device and mesh holds the first solver's operators object")
                 sym.check_terms("C06.init.second_solver_on_the_same_mesh_is_pinned_iff_its_own_terminal_value_is_set",
                                 getattr(s2.operators, "fix_psi", None) is want_fix and s2.operators is not s.operators,
                                 note=f"operators.fix_psi={getattr(s2.operators, 'fix_psi', None)!r}, wanted {want_fix}; new operators built: {len(ops_calls) > n_before}")
